@@ -397,6 +397,22 @@ Proof.
   - intros H. injection H as _ <- <-. left. rewrite E. reflexivity.
 Qed.
 
+(* ------------------------------------------------------------------------------------------------ strings *)
+(* __str__ is overridden by DateTime and is the (inherited, native) isoformat with a blank separator; for_json is isoformat(); format(x, "") is str(x) *)
+Lemma str_is_isoformat x :
+  std_lookup "DateTime" "__str__" = Some (0, "DateTime"%string) /\ std_lookup "DateTime" "isoformat" = Some (1, "datetime"%string) /\
+  std_lookup "DateTime" "__format__" = Some (0, "FormattableMixin"%string) /\
+  pd_str x = native_isoformat 32 x /\ pd_for_json x = native_isoformat 84 x /\ pd_format_empty x = native_isoformat 32 x /\
+  (forall sep, List.length (native_isoformat sep x) = List.length (native_isoformat 32 x)).
+Proof.
+  split; [vm_compute; reflexivity|]. split; [vm_compute; reflexivity|]. split; [vm_compute; reflexivity|].
+  repeat split. intros sep. unfold native_isoformat. destruct (fields_of_wall (v_wall x)) as [[[[[[y m] d] hh] mi] ss] us].
+  rewrite !app_length. reflexivity.
+Qed.
+Example str_example : pd_str (mkdtv (W_2013_03_31 + 3 * HOUR + 7) false (Some (tz_paris 1))) =
+  [50; 48; 49; 51; 45; 48; 51; 45; 51; 49; 32; 48; 51; 58; 48; 48; 58; 48; 48; 46; 48; 48; 48; 48; 48; 55; 43; 48; 50; 58; 48; 48].
+Proof. vm_compute. reflexivity. Qed.
+
 (* ------------------------------------------------------------------------------------------------ FixedTimezone *)
 Lemma fixed_timezone_native o W : fixed_utcoffset o = off_utc (fixed_zone o) W /\ fixed_dst o = 0 /\
   (forall W', fixed_fromutc o W = Ok W' -> W' = fst (render (fixed_zone o) W)).
